@@ -18,6 +18,9 @@ def setup(J):
         add("g6b", 2, 2, mode="delay", delay=1, id="C12-g6b-i2-m2-delay")
         add("gjoin", 2, 2, "cmd", extra=",", id="C12-gjoin-k2")
         add("gsplit", 1, 2, mode="delay", delay=1, id="C12-gsplit-i1-m2-delay")
+        # RunTo computes the upstream closure (walking the ports' RemotePorts maps) while parameter feeders started by FromStr are running
+        add("g8", 1, 2, runto=["p"], id="C12-runto-g8-p")
+        add("g8b", 1, 2, runto=["p"], id="C12-runto-g8b-p")
         # two Workflow objects in one program (package-level state: log handlers)
         add("g8", 1, 2, two_wf=True, id="C12-two-workflows-g8")
         add("g2", 1, 1, "cmd", two_wf=True, id="C12-two-workflows-g2-cmd")
